@@ -95,6 +95,10 @@ def query_check(run, gens, own_clauses, rule, assumptions, ops=False, mc=None, r
         scs = vlib.generate(run, module, cfg, name, fam=run.prop, cap=(capq if quick else capt), timeout=1500)
         log("generated %s: %d scenarios (enumerated %s)" % (name, len(scs), run.cov["gen"][-1].get("enumerated")))
         scenarios += scs
+    # the many-series scenarios of Shards.tla (0..40 series of one metric, several per group and per shard)
+    sh = vlib.generate(run, "Shards", gen_cfg(run.tier, run.seed, 3 if quick else 1, ["EmitShard"]), "shard", fam=run.prop, cap=(400 if quick else 4000), timeout=900)
+    log("generated shard: %d scenarios" % len(sh))
+    scenarios += sh
     if rnd:
         gen, nq, nt = rnd
         rs = vlib.gen_random(run, binary, gen, nq if quick else nt, run.prop)
@@ -215,7 +219,9 @@ def c01(run):
 
 ALL_GENS = [("Gen_Selector", "sel", 16, 24, ["EmitSel"], 1000), ("Gen_Window", "win", 8, 16, ["EmitWin"], 1000),
             ("Gen_Agg", "agg", 1, 1, ["EmitAgg"], 1000), ("Gen_Bin", "bin", 1, 1, ["EmitBin"], 1000),
-            ("Gen_Func", "fn", 1, 1, ["EmitFn"], 1000), ("Gen_Compose", "cmp", 8, 8, ["EmitCmp"], 1000)]
+            ("Gen_Func", "fn", 1, 1, ["EmitFn"], 1000), ("Gen_Compose", "cmp", 8, 8, ["EmitCmp"], 1000),
+            # many series (0..40 of one metric, several per group and per shard) under a basket of 24 queries
+            ("Shards", "shard", 2, 1, ["EmitShard"], 1000)]
 
 
 def all_scenarios(run, cap_quick, cap_thorough, only=None):
